@@ -92,7 +92,8 @@ bool Logic::isBuiltinFunction(SymRef const sr) const {
 }
 
 bool Logic::isReservedWord(std::string const & name) const {
-    return tokens::tokenNames.find(name) != tokens::tokenNames.end();
+    // '_' and '!' are reserved words of SMT-LIB as well, although they are no tokens of their own here
+    return name == "_" or name == "!" or tokens::tokenNames.find(name) != tokens::tokenNames.end();
 }
 
 // Escape the symbol name if it contains a character not allowed in the simple symbol, as defined by SMT-LIB 2.6
@@ -1258,8 +1259,8 @@ void Logic::dumpHeaderToFile(std::ostream & dump_out) const {
     for (SymRef s : symbols) {
         if (s == getSym_true() || s == getSym_false()) continue;
         if (isConstant(s)) {
-            if (isBuiltinConstant(s)) continue;
-            dump_out << "(declare-const ";
+            // numerals and the solver's own default values of user sorts ((as @d4 U)) are not user declarations
+            continue;
         }
         // else if (!isUF(s) && !isVar(s)) continue;
         else if (isBuiltinFunction(s))
